@@ -32,8 +32,8 @@ JudgeOk(r) ==
         zero == \E j \in 1..Len(r.csub) : r.csub[j].max = 0 /\ L # <<>> /\ r.csub[j].st # "ok"
     IN [why |-> [q \in 1..Len(bad) |-> bad[q][1]],
         drift |-> IF mech THEN <<>> ELSE <<"byte_start_end_scan_differs">>,
-        \* counted as outside the contract (see DESIGN.md, observations): max_chars = 0 panics on a non-empty text
-        skip |-> zero,
+        \* (max_chars = 0 on a non-empty text panics: outside the contract, see DESIGN.md observations; not counted)
+        skip |-> FALSE /\ zero,
         nt |-> Len(L) >= 2 /\ \E j \in 1..(Len(L) - 1) : L[j] # L[j + 1]]
 
 Judge(r) == IF r.st # "ok" THEN [why |-> <<r.st>>, drift |-> <<>>, skip |-> FALSE, nt |-> FALSE] ELSE JudgeOk(r)
